@@ -1,3 +1,5 @@
+//go:build all || c18
+
 package props
 
 import (
